@@ -12,12 +12,13 @@
 (*   FixD10 start() holds the observer lock                                                            *)
 (*   FixD12 schedule() does not start an emitter once stop() was requested                             *)
 (*   FixD17 start() does not start the emitters once stop() was requested                              *)
+(*   FixD18 a repeated start() raises before it touches the emitters                                   *)
 EXTENDS Naturals, Sequences, FiniteSets, TLC
 
 CONSTANTS Family,          \* name of the client-program family (see Programs)
           MaxEm,           \* emitter ids 1..MaxEm
           EvPerEm,         \* events each emitter produces
-          FixD3, FixD10, FixD12, FixD17
+          FixD3, FixD10, FixD12, FixD17, FixD18
 
 Watches == {1, 2}
 Handlers == {1, 2, 3}
@@ -42,6 +43,8 @@ Programs ==
     [] Family = "stoprace"  -> [a1 |-> <<Op("schedule", 1, 1), Op("start", 0, 0), Op("stop", 0, 0), Op("join", 0, 0)>>,
                                 a2 |-> <<Op("schedule", 2, 2)>>]
     [] Family = "stopfirst" -> [a1 |-> <<Op("schedule", 1, 1), Op("start", 0, 0), Op("join", 0, 0)>>, a2 |-> <<Op("stop", 0, 0)>>]
+    [] Family = "doublestart" -> [a1 |-> <<Op("schedule", 1, 1), Op("start", 0, 0), Op("start", 0, 0), Op("stop", 0, 0), Op("join", 0, 0)>>,
+                                  a2 |-> <<Op("schedule", 2, 2), Op("start", 0, 0)>>]
     [] Family = "failing"   -> [a1 |-> <<Op("start", 0, 0), Op("schedule", 1, 1), Op("schedule", 2, 1), Op("stop", 0, 0), Op("join", 0, 0)>>,
                                 a2 |-> << >>]
     [] OTHER -> [a1 |-> << >>, a2 |-> << >>]
@@ -171,8 +174,17 @@ Body(t) ==
          [] c.op = "start" ->
               \* emitter starts (a failing one is removed and start() raises), then the observer thread
               IF obs # "new"
-              THEN /\ cs' = [cs EXCEPT ![t].ph = "rel", ![t].ok = FALSE]           \* threads can only be started once
-                   /\ UNCHANGED <<watches, handlers, emitterFor, emitters, em, nextEm, failStart, obs, lastFailed>>
+              THEN \* threads can only be started once.  Without FixD18 the emitters were started again first: the first
+                   \* one that had been started before raised, was removed (stopped, joined) and start() raised
+                   LET again == {e \in emitters : em[e].st \in {"running", "exited"}} IN
+                   IF ~FixD18 /\ ~stopFlag /\ again # {}
+                   THEN LET e == CHOOSE x \in again : \A y \in again : x <= y IN
+                        /\ emitterFor' = [emitterFor EXCEPT ![em[e].w] = 0] /\ emitters' = emitters \ {e}
+                        /\ em' = StopEm({e})
+                        /\ cs' = [cs EXCEPT ![t].ph = "join", ![t].js = Joinable({e}), ![t].ok = FALSE]
+                        /\ UNCHANGED <<watches, handlers, nextEm, failStart, obs, lastFailed>>
+                   ELSE /\ cs' = [cs EXCEPT ![t].ph = "rel", ![t].ok = FALSE]
+                        /\ UNCHANGED <<watches, handlers, emitterFor, emitters, em, nextEm, failStart, obs, lastFailed>>
               ELSE LET bad == {e \in emitters : em[e].w \in failStart} IN
                    IF bad # {}
                    THEN LET e == CHOOSE x \in bad : TRUE IN
@@ -322,6 +334,8 @@ C13_RegistryIsMap ==
     /\ emitters = {emitterFor[w] : w \in {x \in Watches : emitterFor[x] # 0}}
     /\ \A w \in Watches : emitterFor[w] # 0 => em[emitterFor[w]].w = w
     /\ \A w \in Watches : emitterFor[w] # 0 => w \in watches \/ ~Quiet
+\* C13 (D18): whenever no call is in flight every scheduled watch has its emitter (no start() failure is injected)
+C13_ScheduledWatchHasEmitter == Quiet => \A w \in watches : emitterFor[w] # 0
 \* C13 (D3): a schedule() that raised leaves no handler behind
 C13_NoStaleHandlers == \A p \in lastFailed : p[1] \notin handlers[p[2]]
 \* C13/C07 (D10): whenever no call is in flight on a running observer, the emitter of every scheduled watch runs
